@@ -310,7 +310,10 @@ impl ConsumeUnverifiedBlockProcessor {
             &epoch.last_block_hash_in_previous_epoch(),
         )?;
         if new_epoch {
-            db_txn.insert_epoch_ext(&epoch.last_block_hash_in_previous_epoch(), &epoch)?;
+            // only the epoch ext itself: the epoch-number index follows the main chain and is
+            // written below for the blocks that are actually attached
+            db_txn
+                .insert_epoch_ext_by_index(&epoch.last_block_hash_in_previous_epoch(), &epoch)?;
         }
 
         let in_ibd = self.shared.is_initial_block_download();
@@ -334,6 +337,16 @@ impl ConsumeUnverifiedBlockProcessor {
                 "reconcile_main_chain cost {:?}",
                 begin_reconcile_main_chain.elapsed()
             );
+
+            // point the epoch numbers of the newly attached epoch heads at this chain's epochs
+            for blk in fork.attached_blocks() {
+                if let Some(index) = db_txn.get_block_epoch_index(&blk.hash())
+                    && let Some(attached_epoch) = db_txn.get_epoch_ext(&index)
+                    && attached_epoch.start_number() == blk.number()
+                {
+                    db_txn.insert_epoch_number_index(attached_epoch.number(), &index)?;
+                }
+            }
 
             db_txn.insert_tip_header(&block.header())?;
             if new_epoch || fork.has_detached() {
